@@ -376,6 +376,11 @@ func (c *Checker) entryFunctions() []*ssa.Function {
 		if fn.Name() == "init" {
 			continue
 		}
+		// the entry points are the exported functions and methods, plus closures (run by sync.Pool);
+		// unexported helpers are analysed where they are called (inlined into their callers)
+		if fn.Parent() == nil && !fnExported(fn) {
+			continue
+		}
 		out = append(out, fn)
 	}
 	return out
@@ -490,6 +495,58 @@ func checkC12(c *Checker) {
 		}
 		c.expect(okV4, "C12-V4", name, p, "no backing slice escapes", d4)
 	}
+	// V5: the growing operations never panic where the slice model does not
+	c.rule("C12-V5", "no panic the slice model does not have: in Append and AppendSample, past the channel guard, every index, slice bound and capacity-setting argument on every path is implied by the path facts, for arbitrary (also partial-frame) lengths", 2)
+	for _, nm := range []string{"(*Buffer[D]).Append", "(*Buffer[T]).AppendSample"} {
+		fn := c.anchor("C12-V5", nm)
+		if fn == nil {
+			continue
+		}
+		s := c.Summary(fn)
+		name := shortFn(c.W, fn)
+		if c.undecidedEffects("C12-V5", name, s) {
+			continue
+		}
+		ok, d, p := true, "", c.pos(fn.Pos())
+		nB := 0
+		for _, o := range s.Outcomes {
+			if o.Kind == OPanic && !channelGuardPanic(fn, o) {
+				ok, d, p = false, "explicit panic past the channel guard: "+factsBrief(o.St.facts), c.pos(o.Pos)
+			}
+			for _, e := range o.St.effects {
+				switch e.Kind {
+				case EIndex:
+					nB++
+					if !vacuous(e) && !boundsImpliedUnder(e, positiveChannels(fn, e.Facts)) {
+						ok, d, p = false, fmt.Sprintf("bounds of %s are not implied (path: %s)", e.String(), factsBrief(e.Facts)), c.effPos(e)
+					}
+				case ESetCap:
+					nB++
+					if e.Dst == nil || e.N == nil {
+						ok, d, p = false, "unresolved "+e.Note, c.effPos(e)
+						continue
+					}
+					f := positiveChannels(fn, e.Facts)
+					n := normInt(e.N)
+					lo, hi := normInt(e.Dst.Len), normInt(e.Dst.Cap)
+					if e.Note == "SetLen" {
+						lo = newPoly()
+					}
+					if !f.impliesGE0(n.Sub(lo)) {
+						ok, d, p = false, fmt.Sprintf("%s(%s) can be below the length %s: reflect panics (path: %s)", e.Note, pretty(canon(e.N)), pretty(canon(e.Dst.Len)), factsBrief(e.Facts)), c.effPos(e)
+					} else if !f.impliesGE0(hi.Sub(n)) {
+						ok, d, p = false, fmt.Sprintf("%s(%s) can exceed the capacity %s (path: %s)", e.Note, pretty(canon(e.N)), pretty(canon(e.Dst.Cap)), factsBrief(e.Facts)), c.effPos(e)
+					}
+				}
+			}
+		}
+		c.Extra["C12-V5 bounds checked in "+name] = nB
+		if ok {
+			c.proved("C12-V5", name, p, fmt.Sprintf("%d index/slice/SetCap bounds implied, no panic path past the channel guard", nB))
+		} else {
+			c.refuted("C12-V5", name, p, d, "a destination holding a partial frame (after AppendSample), grown by Append")
+		}
+	}
 	// unsafe pointer arithmetic would bypass all of the above
 	for _, fn := range c.entryFunctions() {
 		for _, b := range fn.Blocks {
@@ -590,4 +647,29 @@ func leaksDataRet(v Val, o Outcome) bool {
 		}
 	}
 	return false
+}
+
+// channelGuardPanic: the panic path is the channel-count guard (its facts say the two channel counts differ).
+func channelGuardPanic(fn *ssa.Function, o Outcome) bool {
+	if len(fn.Params) < 2 || !isBufferPtr(fn.Params[1].Type()) {
+		return false
+	}
+	a, b := buf{paramName(fn, 0)}, buf{paramName(fn, 1)}
+	return hasFact(o.St.facts, Cond{Kind: CNE0, P: normSign(normInt(a.ch()).Sub(normInt(b.ch())))})
+}
+
+// positiveChannels adds channels >= 1 for every buffer parameter whose count is known to be non-zero on the path
+// (allocators only produce non-negative counts).
+func positiveChannels(fn *ssa.Function, f *Facts) *Facts {
+	out := f.clone()
+	for _, p := range fn.Params {
+		if !isBufferPtr(p.Type()) {
+			continue
+		}
+		ch := normInt(buf{p.Name()}.ch())
+		if f.eval(Cond{Kind: CNE0, P: normSign(ch)}) == Yes {
+			out.add(Cond{Kind: CGE0, P: ch.AddInt(-1)})
+		}
+	}
+	return out
 }
